@@ -82,6 +82,9 @@ func (x *Exec) resolveSort(env *CEnv, s string) string {
 	for _, a := range args {
 		as = append(as, x.resolveSort(env, strings.TrimSpace(a)))
 	}
+	if strings.HasPrefix(name, "*") {
+		return "Ref"
+	}
 	switch name {
 	case "Int", "Bool", "Ref":
 		return name
@@ -125,6 +128,42 @@ func (x *Exec) resolveSort(env *CEnv, s string) string {
 	return ""
 }
 
+// typedRefType: the Go type of "*Name": pointer to the package's struct type Name
+// instantiated with the unit's type parameters of the same names.
+func (x *Exec) typedRefType(env *CEnv, s string) types.Type {
+	name := strings.TrimPrefix(s, "*")
+	if i := strings.Index(name, "["); i >= 0 {
+		name = name[:i]
+	}
+	tn, ok := x.pkg.Types.Scope().Lookup(name).(*types.TypeName)
+	if !ok {
+		x.cfail(env, "unknown type %s", s)
+	}
+	n := namedOf(tn.Type())
+	if n == nil {
+		x.cfail(env, "type %s is not a named type", s)
+	}
+	if n.TypeParams().Len() > 0 {
+		var ta []types.Type
+		for i := 0; i < n.TypeParams().Len(); i++ {
+			pn := n.TypeParams().At(i).Obj().Name()
+			if env.ttypes != nil && env.ttypes[pn] != nil {
+				ta = append(ta, env.ttypes[pn])
+			} else if tp, ok := x.typeParamObjs[pn]; ok {
+				ta = append(ta, tp)
+			} else {
+				x.cfail(env, "cannot instantiate %s: no type parameter %s in scope", s, pn)
+			}
+		}
+		inst, err := types.Instantiate(nil, n, ta, false)
+		if err != nil {
+			x.cfail(env, "cannot instantiate %s: %v", s, err)
+		}
+		return types.NewPointer(inst)
+	}
+	return types.NewPointer(n)
+}
+
 func (x *Exec) ceval(env *CEnv, e CExpr, want string) Term {
 	switch e := e.(type) {
 	case CInt:
@@ -150,7 +189,11 @@ func (x *Exec) ceval(env *CEnv, e CExpr, want string) Term {
 		var binders []string
 		for _, v := range e.Vars {
 			so := x.resolveSort(env, v.Sort)
-			c.names[v.Name] = Term{S: "?" + v.Name, Sort: so}
+			bt := Term{S: "?" + v.Name, Sort: so}
+			if strings.HasPrefix(v.Sort, "*") {
+				bt.Ty = x.typedRefType(env, v.Sort)
+			}
+			c.names[v.Name] = bt
 			binders = append(binders, fmt.Sprintf("(?%s %s)", v.Name, so))
 		}
 		body := x.ceval(c, e.Body, "Bool")
@@ -169,6 +212,15 @@ func (x *Exec) ceval(env *CEnv, e CExpr, want string) Term {
 		si := x.d.sorts[b.Sort]
 		if si != nil && si.Kind == "list" {
 			r := tApp(si.Elem, "nth_"+b.Sort, b, i)
+			if b.Ty != nil {
+				if sl, ok := types.Unalias(b.Ty).Underlying().(*types.Slice); ok {
+					r.Ty = sl.Elem()
+				}
+			}
+			return r
+		}
+		if si != nil && si.Kind == "arrslice" {
+			r := tSelect(tApp("(Array Int "+si.Elem+")", "arr_"+b.Sort, b), i, si.Elem)
 			if b.Ty != nil {
 				if sl, ok := types.Unalias(b.Ty).Underlying().(*types.Slice); ok {
 					r.Ty = sl.Elem()
@@ -617,6 +669,9 @@ func init() {
 	specFns = map[string]specFn{
 		"len": func(x *Exec, env *CEnv, e CCall, want string) Term {
 			a := x.evalArgs(env, e)[0]
+			if si := x.d.sorts[a.Sort]; si != nil && si.Kind == "arrslice" {
+				return tApp("Int", "len_"+a.Sort, a)
+			}
 			si := x.listKind(env, a, "len")
 			if si.Kind == "list" {
 				return tApp("Int", "len_"+a.Sort, a)
@@ -1089,6 +1144,23 @@ func init() {
 		},
 		"mfwd": func(x *Exec, env *CEnv, e CCall, want string) Term { return x.cMorph(env, e, true) },
 		"minv": func(x *Exec, env *CEnv, e CCall, want string) Term { return x.cMorph(env, e, false) },
+		// asref(e, T): the reference e viewed as a pointer to the package's struct type T
+		"asref": func(x *Exec, env *CEnv, e CCall, want string) Term {
+			r := x.ceval(env, e.Args[0], "Ref")
+			id, ok := e.Args[1].(CIdent)
+			if !ok {
+				x.cfail(env, "asref(e, T) needs a type name")
+			}
+			r.Ty = x.typedRefType(env, "*"+id.Name)
+			return r
+		},
+		// nomap(): the map in which every key has the zero value
+		"nomap": func(x *Exec, env *CEnv, e CCall, want string) Term {
+			if si := x.d.sorts[want]; si == nil || si.Kind != "array" {
+				x.cfail(env, "nomap() needs a map-sorted context, have %q", want)
+			}
+			return x.zeroOfSort(want, nil)
+		},
 		"zero": func(x *Exec, env *CEnv, e CCall, want string) Term {
 			id, ok := e.Args[0].(CIdent)
 			if !ok {
